@@ -347,6 +347,43 @@ pub fn rebuild_node(cfg: Config, hist: &[AOp], replaced: &[Option<bool>]) -> Opt
     Some(node)
 }
 
+/// Which properties a difference between stored state and model state speaks to.
+fn state_tags(model: &Model, d: &SymDump, anomalies: &[String]) -> Vec<&'static str> {
+    let mut t: Vec<&'static str> = vec![];
+    for a in anomalies {
+        if a.contains("absent client") || a.contains("unknown client") || a.contains("owned by unknown") {
+            t.extend(["C09", "C08"]);
+        } else {
+            t.extend(["C01", "C13", "C07"]);
+        }
+    }
+    let m = model.dump();
+    if m.versions != d.versions {
+        t.extend(["C01", "C02", "C07", "C13"]);
+    }
+    for (c, mc) in &m.clients {
+        match d.clients.get(c) {
+            None => t.extend(["C02", "C13"]),
+            Some(dc) => {
+                if dc.latest != mc.latest {
+                    t.extend(["C01", "C02", "C13"]);
+                }
+                if dc.snapshot != mc.snapshot {
+                    t.extend(["C10", "C11", "C12", "C13"]);
+                }
+            }
+        }
+    }
+    for c in d.clients.keys() {
+        if !m.clients.contains_key(c) {
+            t.extend(["C02", "C18", "C13"]);
+        }
+    }
+    t.sort();
+    t.dedup();
+    t
+}
+
 struct SutState {
     diverged: bool,
     acc: Accepted,
@@ -495,8 +532,18 @@ impl Worker {
             let (sdump, anomalies) = self.suts[i].symbolize_dump(&dump);
             if !diverged {
                 if let Err(e) = dump_matches(&node.model, &sdump, &anomalies) {
-                    // was equal when the transition was first taken: replay is not reproducible
-                    find!("REPLAY", i, "replay-state-differs", None, "after replay: {e}");
+                    // the complete view (API + raw tables) of this state differs from the model
+                    let tags = state_tags(&node.model, &sdump, &anomalies);
+                    let mut hit = false;
+                    for m in tags {
+                        if self.mon(m) {
+                            hit = true;
+                            find!(m, i, "stored-state", None, "stored state differs from the model: {e}");
+                        }
+                    }
+                    if !hit {
+                        stats.collateral += 1;
+                    }
                 }
             }
             sts.push(SutState {
@@ -594,65 +641,10 @@ impl Worker {
                     }
                 }
                 // -- C07 / C01: everything this implementation acknowledged is still there
-                for (c, list) in sts[i].acc.per_client.clone() {
-                    // C07: direct re-read of every accepted version by its parent
-                    if self.mon("C07") {
-                        for (id, parent, data) in &list {
-                            stats.eval("C07");
-                            let op = SymOp::GetChild { c, parent: *parent };
-                            let r = self.suts[i].apply(&op, UNKNOWN_SID);
-                            stats.probes += 1;
-                            let ok = matches!(&r, SResp::GcFound { id: i2, parent: p2, data: d2 }
-                                if i2 == id && p2 == parent && d2 == data);
-                            if !ok {
-                                find!(
-                                    "C07", i, "accepted-version-changed", None,
-                                    "version #{id} (parent #{parent}, payload {}) was acknowledged earlier; GetChild(parent) now answers {:?}{tag_reopen}",
-                                    show_bytes(data), r
-                                );
-                            }
-                        }
-                    }
-                    // C01: walk from the base
-                    if self.mon("C01") && !list.is_empty() {
-                        stats.eval("C01");
-                        let mut cur = list[0].1;
-                        let mut k = 0usize;
-                        loop {
-                            let op = SymOp::GetChild { c, parent: cur };
-                            let r = self.suts[i].apply(&op, UNKNOWN_SID);
-                            stats.probes += 1;
-                            match r {
-                                SResp::GcFound { id, parent, data } => {
-                                    if k >= list.len() {
-                                        find!("C01", i, "walk-too-long", None,
-                                            "walk returned #{id} after all {} accepted versions{tag_reopen}", list.len());
-                                        break;
-                                    }
-                                    let (eid, ep, ed) = &list[k];
-                                    if id != *eid || parent != *ep || data != *ed || parent != cur {
-                                        find!("C01", i, "walk-wrong-version", None,
-                                            "walk step {k}: expected accepted version #{eid} (parent #{ep}), got #{id} (parent #{parent}){tag_reopen}");
-                                        break;
-                                    }
-                                    cur = id;
-                                    k += 1;
-                                }
-                                SResp::GcNotFound => {
-                                    if k != list.len() {
-                                        find!("C01", i, "walk-ends-early", None,
-                                            "walk ended not-found after {k} of {} accepted versions (at #{cur}){tag_reopen}", list.len());
-                                    }
-                                    break;
-                                }
-                                other => {
-                                    find!("C01", i, "walk-broken", None,
-                                        "walk step {k} at #{cur} answered {:?}; {} versions were accepted{tag_reopen}", other, list.len());
-                                    break;
-                                }
-                            }
-                        }
-                    }
+                let acc = sts[i].acc.clone();
+                let sd = sts[i].sdump.clone();
+                for (m, class, msg) in self.own_oracle(i, &acc, &sd, tag_reopen, &mut stats) {
+                    find!(m, i, class, None, "{msg}");
                 }
                 // -- GetSnapshot + walk from it (C11)
                 for c in 0..alphabet.n_clients {
@@ -720,24 +712,6 @@ impl Worker {
                             if r != SResp::NoSuchClient {
                                 find!("C08", i, "unknown-client-library", None, "library AddVersion for an unknown client answered {:?}", r);
                             }
-                        }
-                    }
-                }
-            }
-            // -- no two versions share a parent (C01), from the dump
-            if self.mon("C01") {
-                stats.eval("C01");
-                let mut seen: HashSet<(Cid, Sid)> = HashSet::new();
-                for (c, id, p, _) in &sts[i].sdump.versions {
-                    if !seen.insert((*c, *p)) {
-                        find!("C01", i, "fork", None, "two stored versions of client {} share parent #{p} (one is #{id})", (b'A' + *c) as char);
-                    }
-                }
-                // every acknowledged version is stored
-                for (c, list) in &sts[i].acc.per_client {
-                    for (id, p, _) in list {
-                        if !sts[i].sdump.versions.iter().any(|(vc, vi, vp, _)| vc == c && vi == id && vp == p) {
-                            find!("C01", i, "orphan", None, "acknowledged version #{id} (parent #{p}) is not stored");
                         }
                     }
                 }
@@ -1035,6 +1009,17 @@ impl Worker {
                 t_dumps[i] = Some(sd2.clone());
                 if deviates {
                     child_ok = false;
+                    // the subtree is not explored (the model no longer describes it), but the state
+                    // just reached is still examined by the monitors that need no model
+                    let mut acc2 = sts[i].acc.clone();
+                    if let (SResp::AvOk { id, .. }, SymOp::AddVersion { c, parent, data }) = (&r, &sop) {
+                        acc2.per_client.entry(*c).or_default().push((*id, *parent, data.clone()));
+                    }
+                    let dfull = self.suts[i].dump_concrete();
+                    let (sdfull, _an) = self.suts[i].symbolize_dump(&dfull);
+                    for (m, class, msg) in self.own_oracle(i, &acc2, &sdfull, " (state reached by a request the model disagrees with)", &mut stats) {
+                        find!(m, i, class, opd.clone(), "{msg}");
+                    }
                 }
                 // C14 (needs the twin's answer: done below)
                 if let Some(raw) = raw {
@@ -1116,6 +1101,81 @@ impl Worker {
             }
         }
         (findings, children, stats, prune)
+    }
+
+    /// Monitors whose oracle is the implementation itself: every version it acknowledged is
+    /// still returned unchanged (C07), the walk from the chain base returns exactly the
+    /// acknowledged versions in order and ends not-found (C01), no two stored versions share a
+    /// parent and none is missing (C01).
+    fn own_oracle(&mut self, i: usize, acc: &Accepted, sdump: &SymDump, tag: &str, stats: &mut Stats) -> Vec<(&'static str, String, String)> {
+        let mut out: Vec<(&'static str, String, String)> = vec![];
+        for (c, list) in acc.per_client.clone() {
+            if self.mon("C07") {
+                for (id, parent, data) in &list {
+                    stats.eval("C07");
+                    let op = SymOp::GetChild { c, parent: *parent };
+                    let r = self.suts[i].apply(&op, UNKNOWN_SID);
+                    stats.probes += 1;
+                    let ok = matches!(&r, SResp::GcFound { id: i2, parent: p2, data: d2 } if i2 == id && p2 == parent && d2 == data);
+                    if !ok {
+                        out.push(("C07", "accepted-version-changed".into(), format!(
+                            "version #{id} (parent #{parent}, payload {}) was acknowledged earlier; GetChild(parent) now answers {:?}{tag}", show_bytes(data), r)));
+                    }
+                }
+            }
+            if self.mon("C01") && !list.is_empty() {
+                stats.eval("C01");
+                let mut cur = list[0].1;
+                let mut k = 0usize;
+                loop {
+                    let op = SymOp::GetChild { c, parent: cur };
+                    let r = self.suts[i].apply(&op, UNKNOWN_SID);
+                    stats.probes += 1;
+                    match r {
+                        SResp::GcFound { id, parent, data } => {
+                            if k >= list.len() {
+                                out.push(("C01", "walk-too-long".into(), format!("walk returned #{id} after all {} accepted versions{tag}", list.len())));
+                                break;
+                            }
+                            let (eid, ep, ed) = &list[k];
+                            if id != *eid || parent != *ep || data != *ed || parent != cur {
+                                out.push(("C01", "walk-wrong-version".into(), format!("walk step {k}: expected accepted version #{eid} (parent #{ep}), got #{id} (parent #{parent}){tag}")));
+                                break;
+                            }
+                            cur = id;
+                            k += 1;
+                        }
+                        SResp::GcNotFound => {
+                            if k != list.len() {
+                                out.push(("C01", "walk-ends-early".into(), format!("walk ended not-found after {k} of {} accepted versions (at #{cur}){tag}", list.len())));
+                            }
+                            break;
+                        }
+                        other => {
+                            out.push(("C01", "walk-broken".into(), format!("walk step {k} at #{cur} answered {:?}; {} versions were accepted{tag}", other, list.len())));
+                            break;
+                        }
+                    }
+                }
+            }
+        }
+        if self.mon("C01") {
+            stats.eval("C01");
+            let mut seen: HashSet<(Cid, Sid)> = HashSet::new();
+            for (c, id, p, _) in &sdump.versions {
+                if !seen.insert((*c, *p)) {
+                    out.push(("C01", "fork".into(), format!("two stored versions of client {} share parent #{p} (one is #{id}){tag}", (b'A' + *c) as char)));
+                }
+            }
+            for (c, list) in &acc.per_client {
+                for (id, p, _) in list {
+                    if !sdump.versions.iter().any(|(vc, vi, vp, _)| vc == c && vi == id && vp == p) {
+                        out.push(("C01", "orphan".into(), format!("acknowledged version #{id} (parent #{p}) is not stored{tag}")));
+                    }
+                }
+            }
+        }
+        out
     }
 
     /// The library implementation over the same backend kind (C14's twin).
